@@ -529,10 +529,33 @@ func parseContractFile(path, pkg, text string) ([]*Contract, error) {
 	}
 	macros := map[string]string{}
 	var macroName string
+	macroParams := map[string][]string{}
 	expand := func(t string) string {
 		for i := 0; i < 8 && strings.Contains(t, "$"); i++ {
 			for k, v := range macros {
 				t = strings.ReplaceAll(t, "$"+k+"$", v)
+			}
+			// parametrised: $NAME(a, b)$
+			for k, ps := range macroParams {
+				for {
+					start := strings.Index(t, "$"+k+"(")
+					if start < 0 {
+						break
+					}
+					end := strings.Index(t[start+1:], ")$")
+					if end < 0 {
+						break
+					}
+					end += start + 1
+					args := splitTop(t[start+len(k)+2 : end])
+					body := macros[k+"()"]
+					for j, pn := range ps {
+						if j < len(args) {
+							body = replaceWord(body, pn, args[j])
+						}
+					}
+					t = t[:start] + body + t[end+2:]
+				}
 			}
 		}
 		return t
@@ -556,6 +579,15 @@ func parseContractFile(path, pkg, text string) ([]*Contract, error) {
 				return nil, fmt.Errorf("%s:%d: bad macro", path, ln+1)
 			}
 			macroName = strings.TrimSpace(parts[0])
+			if i := strings.Index(macroName, "("); i > 0 && strings.HasSuffix(macroName, ")") {
+				var ps []string
+				for _, pn := range strings.Split(macroName[i+1:len(macroName)-1], ",") {
+					ps = append(ps, strings.TrimSpace(pn))
+				}
+				macroName = macroName[:i]
+				macroParams[macroName] = ps
+				macroName += "()"
+			}
 			macros[macroName] = expand(strings.TrimSpace(parts[1]))
 			continue
 		}
@@ -644,4 +676,23 @@ func parseHeader(s string) (*Contract, error) {
 		}
 	}
 	return c, nil
+}
+
+// replaceWord replaces whole-word occurrences of name in s.
+func replaceWord(s, name, with string) string {
+	var sb strings.Builder
+	i := 0
+	isW := func(c byte) bool {
+		return c == '_' || (c >= '0' && c <= '9') || (c >= 'a' && c <= 'z') || (c >= 'A' && c <= 'Z')
+	}
+	for i < len(s) {
+		if strings.HasPrefix(s[i:], name) && (i == 0 || !isW(s[i-1])) && (i+len(name) >= len(s) || !isW(s[i+len(name)])) {
+			sb.WriteString(with)
+			i += len(name)
+			continue
+		}
+		sb.WriteByte(s[i])
+		i++
+	}
+	return sb.String()
 }
